@@ -83,17 +83,12 @@ theorem split_bgpls_plain (code : Nat) (v rest : Bytes) (hc : code < 65536) (hv 
   simp only [hcode, hlen, hk, hl, Bool.and_false, Bool.false_eq_true, if_false]
   have h1 : ¬ 4 + v.length + rest.length < 4 := by omega
   have h3 : ¬ 4 + v.length + rest.length < 4 + v.length := by omega
-  have h2 : ¬ (vpn && decide (4 + v.length + rest.length < 12)) = true := by
-    cases vpn
-    · simp
-    · have := h8 rfl; simp; omega
-  simp only [h1, h2, h3, if_false]
+  simp only [h1, h3, if_false]
   have t : (be16 code ++ be16 v.length ++ v ++ rest).take (4 + v.length) = be16 code ++ be16 v.length ++ v :=
     List.take_left' (by simp; try omega)
   have d : (be16 code ++ be16 v.length ++ v ++ rest).drop (4 + v.length) = rest :=
     List.drop_left' (by simp; try omega)
   rw [t, d]
-  simp
 
 theorem split_bgpls_known (code : Nat) (v rest : Bytes) (hc : code < 65536) (hv : v.length < 65536)
     (hk : bgplsCodes.contains code = true) :
@@ -292,9 +287,7 @@ theorem split_prefix (k : Kind) (c : Cfg) (d : Bytes) (cut : Cut) (h : split k c
       · cases h
       · split at h
         · cases h
-        · split at h
-          · cases h
-          · cases h; simp
+        · cases h; simp
   · unfold splitFlow splitFlowWith at h
     split at h
     · cases h
